@@ -64,7 +64,9 @@ func (m *Model) CompareShard(w *World, shard int) []Mismatch {
 				want, ok := ms.PauseFlag[tok]
 				if len(val) != 2 {
 					out = append(out, Mismatch{"undecodable", []byte(addr), k, sprintf("system-account entry for %q is %x, not a 2-byte flag", tok, val)})
-				} else if !ok || want != (val[0]&1 != 0) {
+				} else if want != (val[0]&1 != 0) {
+					// (an entry that says "not paused" is the same as no entry: want is false when the model has none)
+					_ = ok
 					out = append(out, Mismatch{"pause", []byte(addr), k, sprintf("pause flag of %q is %x, model says present=%v paused=%v", tok, val, ok, want)})
 				}
 			case strings.HasPrefix(k, pfxESDT):
@@ -141,7 +143,7 @@ func (m *Model) CompareShard(w *World, shard int) []Mismatch {
 		}
 		if isSys {
 			for tok, p := range ms.PauseFlag {
-				if !seenPause[tok] {
+				if !seenPause[tok] && p {
 					out = append(out, Mismatch{"pause", []byte(addr), pfxESDT + tok, sprintf("no pause entry for %q, model says paused=%v", tok, p)})
 				}
 			}
